@@ -1272,22 +1272,36 @@ def m_opt_flatten(I, st, c, args, body, t):
 
 
 def m_bool_then(I, st, c, args, body, t):
+    """bool::then(f) / then_some(v): Some under the facts of `b == true`, None under `b == false`"""
     b = deref(I, st, args[0])
     nm = c.get("name")
     if not isinstance(b, BoolV):
         b = BoolV(None, None, deps_of(b))
+    if b.val is None and body is not None and body.name.endswith("get_message") and "gate_preds" in I.side:
+        x = b
+        while x.origin and x.origin[0] == "not" and isinstance(x.origin[1], BoolV):
+            x = x.origin[1]
+        I.side["gate_preds"].append(x)
     if b.val is False:
         return st, EnumV.none()
-    if nm == "then_some":
-        r = args[1]
-    else:
-        s2 = st.copy() if b.val is None else st
-        s2, r = I.call_value(s2, args[1], [])
-        if s2 is not st:
-            st, _ = I.join_states(st, s2)
+    out = {}
+    # Some side
+    s1 = st.copy()
+    if I.refine(s1, b, True):
+        if nm == "then_some":
+            r = args[1]
+        else:
+            s1, r = I.call_value(s1, args[1], [])
+        g = M.guard_from(I, st, s1, {"deps": b.deps} if b.val is None else None)
+        out["Some"] = ((I.resolve(s1, r) if isinstance(r, (IntV, BoolV)) else r,), g)
     if b.val is True:
-        return st, EnumV.some(r)
-    return st, _opt(r, True, b.deps)
+        return (s1, EnumV(OPT, out)) if out else (st, EnumV.none())
+    s0 = st.copy()
+    if I.refine(s0, b, False):
+        out["None"] = ((), M.guard_from(I, st, s0, {"deps": b.deps}))
+    if nm != "then_some" and "Some" in out:
+        st, _ = I.join_states(st, s1)
+    return st, EnumV(OPT, out)
 
 
 def m_is_ok_and(I, st, c, args, body, t):
@@ -1321,6 +1335,124 @@ def m_mem_replace(I, st, c, args, body, t):
     if isinstance(a, RefV):
         _store(I, st, a, args[1], t)
     return st, v
+
+
+def m_tuple_cmp(I, st, c, args, body, t):
+    """lexicographic lt/le/gt/ge of tuples of integers (derived PartialOrd)"""
+    a, b = deref(I, st, args[0]), deref(I, st, args[1])
+    nm = c.get("name")
+    if not (isinstance(a, TupleV) and isinstance(b, TupleV) and len(a.items) == len(b.items)):
+        return st, BoolV(None, None, deps_of(a) | deps_of(b))
+    strict = {"lt": "Lt", "le": "Lt", "gt": "Gt", "ge": "Gt"}[nm]
+    deps = frozenset()
+    for i, (x, y) in enumerate(zip(a.items, b.items)):
+        x, y = deref(I, st, x), deref(I, st, y)
+        if not (isinstance(x, IntV) and isinstance(y, IntV)):
+            return st, BoolV(None, None, deps_of(a) | deps_of(b))
+        deps |= x.deps | y.deps
+        s_ = ops.compare(strict, x, y)
+        if s_.val is True:
+            return st, BoolV(True) if not deps - (x.deps | y.deps) or i == 0 else BoolV(True)
+        e_ = ops.compare("Eq", x, y)
+        if s_.val is False and e_.val is False:
+            return st, BoolV(False)
+        if e_.val is True:
+            continue
+        # undecided at this component
+        if i == len(a.items) - 1 and e_.val is not True:
+            last = ops.compare({"lt": "Lt", "le": "Le", "gt": "Gt", "ge": "Ge"}[nm], x, y)
+            if all(ops.compare("Eq", deref(I, st, p), deref(I, st, q)).val is True for p, q in list(zip(a.items, b.items))[:i]):
+                return st, last
+        return st, BoolV(None, None, deps)
+    # all components equal
+    return st, BoolV(nm in ("le", "ge"))
+
+
+def m_vec_drain(I, st, c, args, body, t):
+    """Vec::drain(range): removes the range from the vector, yields the removed elements"""
+    a = args[0]
+    v = _vec_of(I, st, a)
+    r = deref(I, st, args[1])
+    lo = hi = None
+    n = len(v.elems) if v is not None and v.elems is not None else None
+    if isinstance(r, StructV):
+        s_, e_ = r.get("start"), r.get("end")
+        lo = 0 if s_ is None else _const(s_)
+        if e_ is None:
+            hi = n
+        else:
+            hi = _const(e_)
+            if hi is not None and "Inclusive" in r.adt:
+                hi += 1
+    elif isinstance(r, TupleV) and not r.items:
+        lo, hi = 0, n           # RangeFull
+    ok = n is not None and lo is not None and hi is not None and 0 <= lo <= hi <= n
+    I.call_obligation(body, t, "drain range in bounds", bool(ok), "range %r on %r" % (r, v))
+    if ok and isinstance(a, RefV):
+        removed = list(v.elems[lo:hi])
+        _store(I, st, a, VecV(v.elems[:lo] + v.elems[hi:], elem_ty=v.elem_ty), t)
+        return st, IterV(removed)
+    if n is not None and lo is not None and hi is not None:
+        raise Diverge("drain")
+    if isinstance(a, RefV) and v is not None:
+        I.set_path(st, a.cell, a.proj, VecV(None, IntV("usize"), M._summary(v)))
+    return st, IterV(None, unknown=True, deps=deps_of(v), end=M._summary(v) if v is not None else Top(why="drain"))
+
+
+def m_ordering_reverse(I, st, c, args, body, t):
+    o = deref(I, st, args[0])
+    if isinstance(o, EnumV):
+        sw = {"Less": "Greater", "Greater": "Less", "Equal": "Equal"}
+        return st, EnumV(o.adt, {sw.get(k, k): v for k, v in o.variants.items()})
+    return st, EnumV("std::cmp::Ordering", {"Less": ((), {}), "Equal": ((), {}), "Greater": ((), {})})
+
+
+def m_array_map(I, st, c, args, body, t):
+    """[T; N]::map(f)"""
+    v = deref(I, st, args[0])
+    if isinstance(v, VecV) and v.elems is not None:
+        out = []
+        for e in v.elems:
+            st, r = I.call_value(st, args[1], [e])
+            out.append(r)
+        return st, VecV(out)
+    s_ = M._summary(v) if isinstance(v, VecV) else Top(deps_of(v), "array elem")
+    try:
+        st, r = I.call_value(st, args[1], [s_])
+    except Diverge:
+        r = Top(deps_of(v), "array::map")
+    return st, VecV(None, v.length if isinstance(v, VecV) else IntV("usize"), r)
+
+
+def m_flat_map(I, st, c, args, body, t):
+    """flat_map(f) / flatten(): materialise the outer sequence and concatenate the inner ones"""
+    it = M.to_iter(I, st, args[0])
+    st, vals, j = materialize(I, st, it)
+    if vals is None:
+        return st, IterV(None, unknown=True, deps=it.deps, end=Top(it.deps, "flat_map item"))
+    out = []
+    for e in vals:
+        if c.get("name") == "flat_map":
+            st, inner = I.call_value(st, args[1], [e])
+        else:
+            inner = e
+        iv = M.to_iter(I, st, inner) if not isinstance(inner, EnumV) else None
+        if isinstance(inner, EnumV):
+            oc = opt_cases(I, st, inner)
+            if oc.only("Some"):
+                out.append(oc.payload("Some"))
+                continue
+            if oc.only("None"):
+                continue
+            return st, IterV(None, unknown=True, deps=it.deps, end=oc.payload("Some"))
+        st, ivals, ij = materialize(I, st, iv)
+        if ivals is None:
+            jj = ij
+            for x in out:
+                jj = x if jj is None else join(jj, x)
+            return st, IterV(None, unknown=True, deps=it.deps | iv.deps, end=jj if jj is not None else Top(why="flat_map"))
+        out.extend(ivals)
+    return st, IterV(out)
 
 
 def m_opaque_cmp(I, st, c, args, body, t):
@@ -1391,7 +1523,7 @@ def install(models):
     vv = "std::vec::Vec::<T, A>::"
     for nm, f in (("is_empty", m_is_empty), ("extend_from_slice", m_vec_extend), ("clear", m_vec_clear), ("truncate", m_vec_truncate),
                   ("pop", m_vec_pop), ("split_off", m_split_off), ("remove", m_vec_remove_insert), ("insert", m_vec_remove_insert),
-                  ("swap_remove", m_vec_remove_insert), ("reserve", m_noop), ("shrink_to_fit", m_noop), ("as_slice", M.m_identity_ref),
+                  ("swap_remove", m_vec_remove_insert), ("drain", m_vec_drain), ("reserve", m_noop), ("shrink_to_fit", m_noop), ("as_slice", M.m_identity_ref),
                   ("as_mut_slice", M.m_identity_ref)):
         E[vv + nm] = f
     E["std::vec::Vec::<T>::with_capacity"] = m_with_capacity
@@ -1470,6 +1602,11 @@ def install(models):
     E[r + "as_ref"] = M.m_as_ref
     E["core::bool::<impl bool>::then"] = m_bool_then
     E["core::bool::<impl bool>::then_some"] = m_bool_then
+    E["std::cmp::Ordering::reverse"] = m_ordering_reverse
+    E["std::array::<impl [T; N]>::map"] = m_array_map
+    E["core::array::<impl [T; N]>::map"] = m_array_map
+    E["std::iter::Iterator::flat_map"] = m_flat_map
+    E["std::iter::Iterator::flatten"] = m_flat_map
     E["std::mem::take"] = m_mem_take
     E["std::mem::replace"] = m_mem_replace
     E["std::mem::drop"] = m_noop
@@ -1511,6 +1648,8 @@ def install(models):
         if name.startswith("std::collections::HashMap::<K, V, S") and nm in (
                 "len", "capacity", "is_empty", "contains_key", "get", "get_key_value", "values", "keys", "iter"):
             return m_hm_readonly
+        if name.startswith("core::tuple::<impl std::cmp::PartialOrd for (") and nm in ("lt", "le", "gt", "ge"):
+            return m_tuple_cmp
         if p == "std::cmp::Ord::clamp":
             return m_clamp
         if p in ("std::cmp::PartialOrd::lt", "std::cmp::PartialOrd::le", "std::cmp::PartialOrd::gt", "std::cmp::PartialOrd::ge") and (
@@ -1522,6 +1661,9 @@ def install(models):
             return m_float_from_int
         if p == "std::str::FromStr::from_str" and "core::num" in name:
             return m_parse_result
+        if p != "std::convert::From::from" and name.endswith(">::from") and "convert::num" in name:
+            # a conversion function passed as a value (`.map(f64::from)`): no callee descriptor, only the instance name
+            return m_float_from_int if (" for f64>" in name or " for f32>" in name) else M.m_int_from
         if p == "std::default::Default::default":
             return None
         return prev(callee, name) if prev else None
